@@ -220,7 +220,8 @@ def _run(s: Soft, case, root):
                             related_write = related_write or bool(others)
                 else:  # write_nc
                     if mode == "a" and (key in C or key in N):
-                        s.check(isinstance(raised, IOError), pre + "write_nc/append-overwrites", f"{what}: raised {raised!r}")
+                        # append mode never overwrites: the call is rejected (IOError) or ignored; the model stays unchanged
+                        s.check(raised is None or isinstance(raised, IOError), pre + "write_nc/append-raises", f"{what}: raised {raised!r}")
                     elif s.check(raised is None, pre + "write_nc/raises", f"{what}: {raised!r}"):
                         if key in C:
                             s.cls("nc-over-completed")
